@@ -24,6 +24,9 @@ EXTRA_SEEDS = [
     'fn f(x) { case x { 1, y -> y _ -> x } }\nfn g(x, z) { case x, z { 1 -> x a, b, c -> c } }\nfn h(a) { f(a, a) + g(a) + h() }\nfn i(t) { let #(p, q) = #(t, t, t) p }\n',
     # documentation comments in front of variants and labelled fields (the named things there must still be exactly one token)
     'pub type R {\n  /// first é\n  R(\n    /// the name\n    name: String,\n    /// how many 💣\n    count: Int,\n  )\n  /// none\n  N\n}\n/// doc\npub fn f(r: R) { r.name }\nfn g() { R(name: "x", count: 1) }\n',
+    # arities that do not agree in pipelines, use and captures (too many / too few arguments, piping into a value)
+    'fn one() { 1 }\nfn two(a, b) { a }\nfn p() { 2 |> one(3) }\nfn q() { 2 |> one }\nfn r() { 1 |> two(2, 3, 4) }\nfn s() { 1 |> two }\n'
+    'fn t() { use x, y <- two(1) x }\nfn u() { two(_, _, _) }\nfn v() { one(1)(2) }\nfn w() { 1 |> 2 |> one() }\n',
     # non-ASCII text in comments, strings and broken places
     '//// модуль 日本語\n/// док 💣\npub fn h() { "こんにちは" <> "é" } // конец\nconst k = "กขค"\nfn i() { let s = "💣💣" s }\n',
     # mutual recursion / recursion groups (the functions of one group are inferred together)
